@@ -299,8 +299,9 @@ def obligations(tier, seed):
     obs = []
     quick = tier == 'quick'
     t = 150 if quick else 900
+    rot = set(qh.rotating([n for n in CASES if not SPEC[n]['quick']], seed, 6)) if quick else set()
     for name in CASES:
-        if quick and not SPEC[name]['quick']:
+        if quick and not SPEC[name]['quick'] and name not in rot:
             continue
         obs.append(_binding_obl(name, t))
     for quote in ('"', "'"):
